@@ -1,7 +1,7 @@
 (* C14 — property theorems only.  Each is closed by [exact <lemma>] and followed by
    Print Assumptions; the statements are pinned here so they cannot be quietly weakened. *)
-From FB Require Import C14.Model C14.Theory C14.Theory2 C14.Theory3 C14.Theory4 C14.Theory5 C14.Theory6 C14.Theory7.
-From Coq Require Import Permutation.
+From FB Require Import C14.Model C14.Model2 C14.Theory C14.Theory2 C14.Theory3 C14.Theory4 C14.Theory5 C14.Theory6 C14.Theory7 C14.Theory8.
+From Coq Require Import Permutation ZArith.
 
 (* ---- 1. jar names = mapping names ---- *)
 
@@ -322,7 +322,231 @@ Theorem C14_rsplit_none : forall s, rsplit_uu s = None -> forall a b, s <> a ++ 
 Proof. exact rsplit_uu_none. Qed.
 Print Assumptions C14_rsplit_none.
 
+(* ---- 6. round 4: the abstract forms of the model are the literal code (C14/Model2.v) ---- *)
+
+(* 6a. the anonymous rule.  parse_i32 is core's <i32 as FromStr>::from_str transcribed byte by byte
+   (checked_mul / checked_add / checked_sub); it accepts exactly: optional sign, one or more ASCII digits,
+   value in [-2^31, 2^31-1] *)
+Theorem C14_parse_i32_spec : forall s z,
+  parse_i32 s = Some z <->
+  exists sign ds v, s = sign ++ ds /\ dec_denotes ds v /\
+    (((sign = [] \/ sign = [cPLUS]) /\ z = v) \/ (sign = [cMINUS] /\ z = (- v)%Z)) /\
+    (i32_min <= z <= i32_max)%Z.
+Proof. exact parse_i32_spec. Qed.
+Print Assumptions C14_parse_i32_spec.
+
+(* the rule the filter uses (Model.anon_index_ok) is `parse::<i32>().map_or(false, |x| x >= 1)` on EVERY string *)
+Theorem C14_anon_rule_is_parse : forall s,
+  anon_index_ok s = match parse_i32 s with Some x => Z.leb 1 x | None => false end.
+Proof. exact anon_index_ok_is_parse. Qed.
+Print Assumptions C14_anon_rule_is_parse.
+
+(* declaratively: an optional `+`, then ASCII digits (leading zeros allowed) denoting 1 .. 2^31-1 *)
+Theorem C14_anon_rule_spec : forall s,
+  anon_index_ok s = true <->
+  exists sign ds v, s = sign ++ ds /\ (sign = [] \/ sign = [cPLUS]) /\ dec_denotes ds v /\
+    (1 <= v <= 2147483647)%Z.
+Proof. exact anon_index_ok_spec. Qed.
+Print Assumptions C14_anon_rule_spec.
+
+Theorem C14_dec_denotes_iff : forall s v,
+  dec_denotes s v <-> s <> [] /\ forallb is_digit s = true /\ v = zfold s 0%Z.
+Proof. exact dec_denotes_iff. Qed.
+Print Assumptions C14_dec_denotes_iff.
+
+(* boundary strings: 0, 00, 01, +1, -1, -0, +, -, +0, ++1, +-1, 2^31-1, 2^31, 2^32-1, +2^31-1, 30 leading
+   zeros before 2^31-1 and 2^31, empty, ` 1`, `1 `, 1_0, 1.0, 1e3, 0x1, Arabic-Indic, fullwidth, 1 + Arabic-Indic,
+   superscript two, 1, 12 *)
+Theorem C14_anon_rule_table :
+  forallb (fun p => Bool.eqb (anon_index_ok (fst p)) (snd p) && Bool.eqb (anon_rule (fst p)) (snd p)) anon_table = true /\
+  map snd anon_table =
+  [false; false; true; true; false; false; false; false; false; false; false; true; false; false; true; true; false;
+   false; false; false; false; false; false; false; false; false; false; false; true; true].
+Proof. split; [exact anon_table_ok|reflexivity]. Qed.
+Print Assumptions C14_anon_rule_table.
+
+Theorem C14_filter_spec_anonymous : forall J T1 n T2,
+  NoDup (keys (T1 ++ n :: T2)) -> n_kind n = KAnon ->
+  (In n (this_nests J (T1 ++ n :: T2)) <->
+   mem_str (n_class n) (present_after T1 (jar_classes J)) = true /\
+   exists z, parse_i32 (n_inner n) = Some z /\ (1 <= z)%Z).
+Proof. exact filter_spec_anonymous. Qed.
+Print Assumptions C14_filter_spec_anonymous.
+
+(* 6b. the depth counters of fix c9cdfec.  bt_depth / jr_depth carry the Rust code's `depth` and bail when
+   `depth > len`; their fuel parameter only makes the recursion structural.  With any fuel above the table
+   size they compute the functions of Model.v, so the only Err is the Rust code's own test, and by
+   C14_translation_err_iff it fires exactly on the cyclic tables. *)
+Theorem C14_build_translation_literal : forall f T c,
+  (length T < f)%nat -> bt_depth f T c 1 = build_translation (table_fuel T) T c.
+Proof. exact bt_depth_literal. Qed.
+Print Assumptions C14_build_translation_literal.
+
+Theorem C14_jar_remap_literal : forall f F n,
+  find_nest F (n_class n) = Some n -> (length F < f)%nat ->
+  jr_depth f F n 1 = jar_remap (table_fuel F) F n.
+Proof. exact jr_depth_literal. Qed.
+Print Assumptions C14_jar_remap_literal.
+
+Theorem C14_jar_remap_literal_needs_entry :
+  let F := [mkNest KInner lit_A lit_B None lit_A 0] in
+  let n := mkNest KInner lit_X lit_A None lit_X 0 in
+  find_nest F (n_class n) = None /\ jr_depth 5 F n 1 = Err /\ jar_remap (table_fuel F) F n = Ok [66; 36; 65; 36; 88].
+Proof. exact jr_depth_literal_needs_entry. Qed.
+Print Assumptions C14_jar_remap_literal_needs_entry.
+
+Theorem C14_translation_literal : forall f T, (length T < f)%nat -> translation_lit f T = translation T.
+Proof. exact translation_literal. Qed.
+Print Assumptions C14_translation_literal.
+
+Theorem C14_jar_map_literal : forall f F, NoDup (keys F) -> (length F < f)%nat -> jar_map_lit f F = jar_map F.
+Proof. exact jar_map_literal. Qed.
+Print Assumptions C14_jar_map_literal.
+
+(* the depth test fires exactly on the cyclic tables, never on an acyclic one *)
+Theorem C14_depth_bound_iff : forall f T, (length T < f)%nat ->
+  (translation_lit f T = Err <-> ~ acyclic T) /\ ((exists m, translation_lit f T = Ok m) <-> acyclic T).
+Proof. exact depth_bound_iff. Qed.
+Print Assumptions C14_depth_bound_iff.
+
+Theorem C14_jar_depth_bound_iff : forall f F, NoDup (keys F) -> (length F < f)%nat ->
+  (jar_map_lit f F = Err <-> ~ acyclic F).
+Proof. exact jar_depth_bound_iff. Qed.
+Print Assumptions C14_jar_depth_bound_iff.
+
+(* 6c. translating a table: the enclosing method.  Its DESCRIPTOR is always the source descriptor rewritten
+   through the class map of the mapping set, whether or not the method itself is mapped (`<init>`, `<clinit>`,
+   lambda bodies, methods of classes without member mappings); its NAME is the mapped one exactly when
+   (owner, name, descriptor) has a mapping *)
+Theorem C14_enclosing_method_image : forall M B owner m r,
+  mk_bremap M = Ok B -> b_map_method B owner m = Ok r ->
+  map_desc (b_map_class B) (snd m) = Ok (snd r) /\ fst r = method_target_name B owner m.
+Proof. exact b_map_method_spec. Qed.
+Print Assumptions C14_enclosing_method_image.
+
+Theorem C14_enclosing_method_unmapped : forall B owner m,
+  (forall b, b_find B owner = Some b -> m_find (b_meths b) m = None) ->
+  b_map_method B owner m = match map_desc (b_map_class B) (snd m) with Ok d => Ok (fst m, d) | Err => Err end.
+Proof. exact b_map_method_unmapped. Qed.
+Print Assumptions C14_enclosing_method_unmapped.
+
+Theorem C14_map_nests_method_desc : forall T M B T',
+  mk_bremap M = Ok B ->
+  NoDup (map (b_map_class B) (keys T)) ->
+  map_nests T M = Ok T' ->
+  Forall2 (fun n n' =>
+    match n_meth n with
+    | None => n_meth n' = None
+    | Some m => exists m', n_meth n' = Some m' /\
+                  map_desc (b_map_class B) (snd m) = Ok (snd m') /\
+                  fst m' = method_target_name B (n_encl n) m
+    end) T T'.
+Proof. exact map_nests_method_desc. Qed.
+Print Assumptions C14_map_nests_method_desc.
+
+(* pinned: anonymous class c in o, enclosing method `<init>(Lp;I)V` (unmapped), p -> q/R: the image has
+   `<init>(Lq/R;I)V` *)
+Theorem C14_map_nests_unmapped_method_example :
+  map_nests b3_T b3_M =
+  Ok [ mkNest KAnon [67] [79] (Some (b3_init, [40; 76; 113; 47; 82; 59; 73; 41; 86])) [49] 0 ].
+Proof. exact map_nests_unmapped_method_example. Qed.
+Print Assumptions C14_map_nests_unmapped_method_example.
+
+(* 6d. refs_rewritten is delegated to C07 (table of dukebox::remap) and to the harness oracle; what is
+   handed over is pinned here: the remapper nest_jar gives to dukebox::remap::{remap_class,
+   remap_jar_entry_name} answers jar_name on object class names, rewrites array class names through it,
+   leaves primitive arrays and every class that is not an applicable entry alone, keeps member names and
+   rewrites member descriptors through the same function *)
+Theorem C14_jar_name_via_remapper : forall J T c,
+  jar_name J T c = match jar_remapper J T with Ok r => Ok (r c) | Err => Err end.
+Proof. exact jar_name_via_remapper. Qed.
+Print Assumptions C14_jar_name_via_remapper.
+
+Theorem C14_jar_remapper_any : forall J T r,
+  jar_remapper J T = Ok r ->
+  (forall c, starts_with [cLBRACK] c = false -> jr_class_any r c = jar_name J T c) /\
+  (forall k c, c <> [] -> no_semi c ->
+     exists c', jar_name J T c = Ok c' /\
+       jr_class_any r (repeat cLBRACK (S k) ++ cL :: c ++ [cSEMI]) = Ok (repeat cLBRACK (S k) ++ cL :: c' ++ [cSEMI])) /\
+  (forall d, starts_with [cLBRACK] d = true -> ~ In cL d -> jr_class_any r d = Ok d) /\
+  (forall c, ~ In c (keys (this_nests J T)) -> r c = c).
+Proof. exact jar_remapper_any. Qed.
+Print Assumptions C14_jar_remapper_any.
+
+Theorem C14_jar_remapper_trans : forall J T r c,
+  NoDup (keys T) -> jar_remapper J T = Ok r -> trans (this_nests J T) c (r c).
+Proof. exact jar_remapper_trans. Qed.
+Print Assumptions C14_jar_remapper_trans.
+
+Theorem C14_jar_member_ref : forall r o nd res,
+  jr_member_ref r o nd = Ok res ->
+  fst res = r o /\ fst (snd res) = fst nd /\ map_desc r (snd nd) = Ok (snd (snd res)).
+Proof. exact jr_member_ref_spec. Qed.
+Print Assumptions C14_jar_member_ref.
+
+Theorem C14_jar_method_ref_array : forall r o nd, starts_with [cLBRACK] o = true ->
+  jr_method_ref r o nd = match jr_class_any r o with Ok o' => Ok (o', nd) | Err => Err end.
+Proof. exact jr_method_ref_array. Qed.
+Print Assumptions C14_jar_method_ref_array.
+
+Theorem C14_entry_name_class : forall r c, jr_entry_name r (c ++ dot_class) = r c ++ dot_class.
+Proof. exact jr_entry_name_class. Qed.
+Print Assumptions C14_entry_name_class.
+
+Theorem C14_entry_name_other : forall r name,
+  (forall c, name <> c ++ dot_class) -> jr_entry_name r name = name.
+Proof. exact jr_entry_name_other. Qed.
+Print Assumptions C14_entry_name_other.
+
+(* 6e. apply and undo in BOTH namespaces.  apply: source names and descriptors through the translation of the
+   table, target names through the translation of the table's image under remap_nests; undo: source side through
+   the inverse pairs, a target name only when it is itself the name of a listed class (then `$` becomes `__`) *)
+Theorem C14_apply_spec : forall T M M1,
+  apply_nests M T = OOk M1 ->
+  exists T' m m', map_nests T M = Ok T' /\ translation T = Ok m /\ translation T' = Ok m' /\
+    ms_ns M1 = ms_ns M /\ ms_doc M1 = ms_doc M /\
+    Forall2 (class_rewritten (map_class m) (map_class m')) (ms_classes M) (ms_classes M1).
+Proof. exact apply_spec. Qed.
+Print Assumptions C14_apply_spec.
+
+Theorem C14_undo_spec : forall T M M1,
+  undo_nests M T = OOk M1 ->
+  exists m, translation T = Ok m /\
+    ms_ns M1 = ms_ns M /\ ms_doc M1 = ms_doc M /\
+    Forall2 (class_rewritten (map_class (inverse m)) (undo_dst T)) (ms_classes M) (ms_classes M1).
+Proof. exact undo_spec. Qed.
+Print Assumptions C14_undo_spec.
+
+Theorem C14_undo_dst_spec : forall T d,
+  (~ In d (keys T) -> undo_dst T d = d) /\
+  (In d (keys T) -> ~ In cDOLLAR (undo_dst T d) /\
+     forall a b, d = a ++ cDOLLAR :: b -> undo_dst T d = dollar_to_uu a ++ [cUSCORE; cUSCORE] ++ dollar_to_uu b).
+Proof. exact undo_dst_spec. Qed.
+Print Assumptions C14_undo_dst_spec.
+
+(* 6f. one classification of inner names at every site: the text reader's kind is the one inner_name
+   (NestTypeA::new) and strip_local_class_prefix use — ASCII digits in front — and for a table read from text
+   the anonymous rule is: all ASCII digits, value 1 .. 2^31-1 *)
+Theorem C14_read_line_kind : forall l n,
+  read_line l = Ok n -> n_kind n = ascii_kind (n_inner n) /\ n_inner n <> [].
+Proof. exact read_line_kind. Qed.
+Print Assumptions C14_read_line_kind.
+
+Theorem C14_read_anonymous_rule : forall l n,
+  read_line l = Ok n -> n_kind n = KAnon ->
+  forallb is_digit (n_inner n) = true /\
+  (anon_index_ok (n_inner n) = true <-> (1 <= zfold (n_inner n) 0 <= 2147483647)%Z).
+Proof. exact read_anonymous_rule. Qed.
+Print Assumptions C14_read_anonymous_rule.
+
 (* ---- non-vacuity: a concrete chain of depth 3 (inner, anonymous, local) satisfies every hypothesis ---- *)
 Theorem C14_examples : nonvacuous.
 Proof. exact nonvacuous_holds. Qed.
 Print Assumptions C14_examples.
+
+(* the hypotheses of part 6 on the same example (every listed nest is its own entry, fuel 5 > |T| = 3, the jar
+   remapper exists and answers A$B$1$1L for E and [[LA$B$1$1L; for [[LE;, a mapped and an unmapped enclosing
+   method, apply then undo succeed, a line of the text format read as an anonymous nest with index 007) *)
+Theorem C14_examples_round4 : nonvacuous8.
+Proof. exact nonvacuous8_holds. Qed.
+Print Assumptions C14_examples_round4.
